@@ -66,7 +66,13 @@ def synthetic(ctx, n, maxlen=None, regs_only=False):
             forms = [f for f in forms if "mem" not in f["kinds"]] or forms
         pipe = deps.Pipeline(ctx, isa, iy, ay)
         gl = deps.gen_kernel(ctx.rng, isa, forms, n=maxlen and ctx.rng.randint(2, maxlen))
-        text = "\n".join(t for t, _, _ in gl) + "\n"
+        tl = [t for t, _, _ in gl]
+        if ctx.rng.random() < 0.3:
+            # empty lines inside the kernel: parse_file drops them, so the line numbers of the kernel have gaps
+            for _ in range(ctx.rng.choice([1, 1, 2])):
+                tl.insert(ctx.rng.randrange(1, len(tl)) if len(tl) > 1 else 0, "")
+            ctx.coverage["synthetic_kernels_with_line_gaps"] = ctx.coverage.get("synthetic_kernels_with_line_gaps", 0) + 1
+        text = "\n".join(tl) + "\n"
         fd = ctx.rng.random() < 0.5
         case, kernel, dg = deps.build_case(pipe, text, fd)
         case["origin"] = "synthetic"
